@@ -270,6 +270,53 @@ def rule_p1(ctx, F):
         ctx.gate("P1", fn, [pt for pt, c, d in wt], [("the file is rewritten only with --update", "(*_).update", True)], accept_desc="rewriting the corpus file")
 
 
+def rule_p2(ctx, F):
+    """P2: a corpus file is rewritten only from the *complete* list of its tests: write_tests is reached
+    only after the loop over the group's children ran to exhaustion (a fail-fast stop must leave the
+    file alone, otherwise every test after the failing one is dropped)."""
+    import rsrules
+    fn = ctx.need_fn(F, "test::run_tests", "P2")
+    if not fn:
+        return
+    rec = [pt for pt, c, d in calls_named(fn, "test::run_tests")]
+    wt = [pt for pt, c, d in calls_named(fn, "write_tests")]
+    loops = []
+    for b in fn.blocks.values():
+        if rsrules.is_loop_next_switch(fn, b.id):
+            some = [e.to for e in b.succs if isinstance(e.lab, dict) and e.lab.get("name") == "Some"]
+            seen, work = set(), list(some)
+            while work:
+                x = work.pop()
+                if x in seen or x == b.id:
+                    continue
+                seen.add(x)
+                work.extend(e.to for e in fn.blocks[x].succs)
+            if any(pt[0] in seen for pt in rec):
+                loops.append(b.id)
+    if not rec or not wt or not loops:
+        ctx.bad("P2", "run_tests:children-loop", "the loop over a group's children (containing the recursive run_tests call) or the write_tests call was not found")
+        return
+    loop_set, wt_set = set(loops), set(wt)
+
+    class Exhausted(Monitor):
+        def elem(self, m, pt, e, s):
+            if pt in wt_set and not m:
+                return Viol("the corpus file is rewritten although the loop over the group's tests was left early", pt)
+            return m
+
+        def edge(self, m, bid, edge, cond, truth, s):
+            if bid in loop_set and isinstance(edge.lab, dict):
+                return edge.lab.get("name") == "None"
+            return m
+    srch = Search(fn, Exhausted(), budget=3000000)
+    v = srch.run(False)
+    if v is None:
+        ctx.ok("P2", "run_tests:rewrite-only-after-all-children", "write_tests is reached only after the children loop was exhausted (%d states)" % srch.states)
+    else:
+        ctx.bad("P2", "run_tests:rewrite-only-after-all-children", "run_tests: %s (%s): after a fail-fast stop the file is written from a partial list and the remaining tests disappear" % (v.msg, fn.loc(v.pt)),
+                {"path": srch.render_path(v.path)[-6:]})
+
+
 def rule_f3(ctx, F):
     """Delimiter recognition is exact: the only characters ignored after the repeated `=`/`-` are
     line terminators.  (Ignoring more — blanks, arbitrary whitespace — turns input lines into
@@ -498,6 +545,7 @@ def run(ctx):
     rule_f5(ctx, F)
     rule_b1(ctx, F)
     rule_w1(ctx, F)
+    rule_p2(ctx, F)
     return ctx.finish(
         "Field-flow, taint and path-counting rules over rustc MIR of crates/cli/src/test.rs: each TestCorrection is built from the entry's own name/input/attributes/delimiter lengths; "
         "the writer reads every field; with --update each Example path to Ok(true) records exactly one correction; the recognised delimiter suffix must reach the entry. "
